@@ -191,6 +191,20 @@ class FactEngine(object):
         return implied(fs, canon(op, a, b))
 
 
+def has_lower_bound(fs, k, n, unsigned=False):
+    """Do the facts imply k >= n ?"""
+    for (op, a, b) in fs:
+        if b == k and a.startswith('n:'):
+            m = int(a[2:])
+            if (op == '<' and m >= n - 1) or (op == '<=' and m >= n) or (op == '==' and m >= n):
+                return True
+        if a == k and b.startswith('n:') and op == '==' and int(b[2:]) >= n:
+            return True
+        if unsigned and n == 1 and op == '!=' and set((a, b)) == set((k, 'n:0')):
+            return True
+    return unsigned and n <= 0
+
+
 def implied(fs, f):
     if f in fs:
         return True
